@@ -84,6 +84,10 @@ func pre(a Action, op string, ctx context.Context) error {
 		panic(Crash{At: "before " + op})
 	}
 	if a.Block {
+		if ctx.Done() == nil {
+			// nothing would ever end this wait: fail instead of hanging
+			return ErrInjected
+		}
 		<-ctx.Done()
 		return ctx.Err()
 	}
